@@ -607,13 +607,7 @@ def check(ctx):
     mk = model.func("apischema.validation.mock.ValidatorMock.__getattribute__")
     body14 = mk.node.body
     # (a) presence by membership
-    first_ret = min((n for n in walk_no_nested(mk.node) if isinstance(n, ast.Return) and n.value is not None), key=lambda n: n.lineno, default=None)
-    from ..pathcond import parents_of as _po14, path_condition as _pc14
-    pm14 = _po14(mk.node)
-    cond14 = norm(_pc14(mk.node, first_ret, pm14)) if first_ret is not None else ""
-    ctx.check(first_ret is not None and cond14.replace("(", "").replace(")", "") == "name in values" and norm(first_ret.value) == "values[name]", "C10.R14", f"{mk.qualname}:presence", None,
-              f"the deserialized value is returned under `{cond14}` (value `{norm(first_ret.value) if first_ret is not None else '?'}`): a field whose value is None - an explicit null in the data - is taken for absent and the validator sees the field's default; its violation disappears from the report exactly when another field is invalid",
-              mk, first_ret or mk.node, detail="if name in values: return values[name]")
+    mock_presence_rule(ctx, "C10.R14")
     # (b) fields of the deserialization view
     ofc = [c for c in walk_no_nested(mk.node) if isinstance(c, ast.Call) and dotted(c.func) == "object_fields"]
     ctx.check(len(ofc) == 1 and any(k.arg == "deserialization" and norm(k.value) == "True" for k in ofc[0].keywords), "C10.R14", f"{mk.qualname}:fields", None, "the mock does not look defaults up among the fields of the deserialization view", mk, ofc[0] if ofc else mk.node, detail="object_fields(cls, deserialization=True)")
@@ -702,7 +696,14 @@ def mock_presence_rule(ctx, rule):
     first_ret = min((n for n in walk_no_nested(mk.node) if isinstance(n, ast.Return) and n.value is not None), key=lambda n: n.lineno, default=None)
     pm14 = _po14(mk.node)
     cond14 = norm(_pc14(mk.node, first_ret, pm14)) if first_ret is not None else ""
-    ctx.check(first_ret is not None and cond14.replace("(", "").replace(")", "") == "name in values" and norm(first_ret.value) == "values[name]", rule, f"{mk.qualname}:presence", None,
+    by_membership = first_ret is not None and cond14.replace("(", "").replace(")", "") == "name in values" and norm(first_ret.value) == "values[name]"
+    # equivalent spelling: try: return values[name] / except KeyError: fall through
+    by_lookup = False
+    if first_ret is not None and norm(first_ret.value) == "values[name]":
+        p_ = pm14.get(first_ret)
+        if isinstance(p_, ast.Try) and first_ret in p_.body and any(h.type is not None and norm(h.type) in ("KeyError", "LookupError") for h in p_.handlers) and cond14 in ("", "True"):
+            by_lookup = True
+    ctx.check(by_membership or by_lookup, rule, f"{mk.qualname}:presence", None,
               f"the deserialized value is returned under `{cond14}` (value `{norm(first_ret.value) if first_ret is not None else '?'}`): a field whose value is None - an explicit null in the data - is taken for absent and the validator sees the field's default; its violation disappears from the report exactly when another field is invalid (one violation hides another)",
               mk, first_ret or mk.node, detail="if name in values: return values[name]")
 
@@ -722,6 +723,7 @@ def fixtures(ctx):
 
 
 def mutants(mb):
+    mb.add_text("neg-mock-presence-try-except", "apischema/validation/mock.py", "        if name in values:\n            return values[name]\n", "        try:\n            return values[name]\n        except KeyError:\n            pass\n", negative=True)
     mb.add_text("private-names-not-mangled", "apischema/validation/dependencies.py", "            if self.cls_name and attr.startswith(\"__\") and not attr.endswith(\"__\"):\n                attr = f\"_{self.cls_name}{attr}\"\n", "", "C10.R15", "mangling")
     MK = "apischema/validation/mock.py"
     mb.add_text("mock-none-is-absent", MK, "        if name in values:\n            return values[name]\n", "        value = values.get(name)\n        if value is not None:\n            return value\n", "C10.R14", "presence")
